@@ -1,11 +1,21 @@
 (* GENERATED from the Go sources of /repo by /verif/tools/gen_model — do not edit. *)
 From Coq Require Import String.
-From OtpV Require Import Prelude Sha GoSem Errors Decoder Otp Ocra Utils Suite.
+From OtpV Require Import Prelude Sha GoSem Rfc4648 Errors Decoder Otp Ocra Utils Suite.
 Open Scope N_scope.
 
 Definition atoi_go (s : bytes) : Z * option err := match atoi s with Some v => (v, None) | None => (0%Z, Some (EStd 11 [])) end.
 Definition lookup_go (raw : bytes) : suite_cfg * bool := match lookup raw known_suites with Some c => (c, true) | None => (zero_cfg, false) end.
 Definition idxS (l : list bytes) (i : Z) : res bytes := if (i <? 0)%Z then Pnc else match nth_error l (Z.to_nat i) with Some b => Val b | None => Pnc end.
+Definition parse_uint_go (s : bytes) : N * option err := match parse_uint64 s with Some v => (v, None) | None => (0, Some (EStd 1 [s])) end.
+Definition hex_decode_go (s : bytes) : bytes * option err := match hex_decode s with Some b => (b, None) | None => ([], Some (EStd 2 [])) end.
+(* new(big.Int).SetString(s, 10): optional sign, decimal digits; big.Int.Text(16): lower-case hexadecimal, '-' for negatives *)
+Definition big_parse10 (s : bytes) : Z * bool :=
+  let '(neg, ds) := match s with 45 :: t => (true, t) | 43 :: t => (false, t) | _ => (false, s) end in
+  match ds with [] => (0%Z, false) | _ => if forallb is_dec_digit ds then ((if neg then - Z.of_N (dec_val ds) else Z.of_N (dec_val ds))%Z, true) else (0%Z, false) end.
+Definition lower_ascii (c : N) : N := if (65 <=? c) && (c <=? 90) then c + 32 else c.
+Definition big_text16 (z : Z) : bytes := if (z <? 0)%Z then 45 :: map lower_ascii (hex_text (Z.to_N (- z))) else map lower_ascii (hex_text (Z.to_N z)).
+(* crypto/rand.Read(buf) fills the whole buffer from the source (oracle parameter) and never reports an error *)
+Definition rand_fill (buf src : bytes) : bytes := firstn (length buf) src ++ skipn (length src) buf.
 Definition b32_decode_go (s : bytes) : bytes * option err :=
   let '(bs, o) := b32_decode_string s in (bs, match o with Some off => Some (EBase32 off) | None => None end).
 
